@@ -1,5 +1,6 @@
 import MptModel.Impl.Encode
 import MptModel.Impl.Decode
+import MptModel.Impl.CodecTable
 import MptModel.Spec.Cobs
 import Driver.Util
 namespace Driver.Codec
@@ -395,6 +396,29 @@ def step (s : St) (w : List String) : St × String :=
     | some m, some _ =>
       let f := pyEnc m
       (s, s!"R frame={toHex f} {specDecode (.cobs .cobs) f} | C - | I - | S frame={toHex (enc .cobs m)} msg={toHex m} ; *")
+    | _, _ => (s, "bad-op")
+  | ["lookup", what, arg] =>
+    -- S: the framing the coding number stands for (convert.h), the same on the encoder and the decoder side
+    let specOf (n : Nat) : String := if n = 1 then "command" else ((Variant.ofCoding n).map Variant.name).getD "none"
+    let nameOf (c : Option Codec) : String := (c.map Codec.name).getD "none"
+    match what, arg.toNat? with
+    | "enc", some n =>
+      (s, s!"R fn={nameOf (encoderOf n)} | C - | I - | S {if n < 128 then s!"fn={specOf n} ; *" else "* ; *"}")
+    | "dec", some n =>
+      (s, s!"R fn={nameOf (decoderOf n)} | C - | I - | S {if n < 128 then s!"fn={specOf n} ; *" else "* ; *"}")
+    | "type", some n =>
+      -- the name reported for a coding number must stand for that number
+      let nm := (encodingType n).map fun cs => String.ofList (cs.map Char.ofNat)
+      let alt := if n < 128 ∧ specOf n ≠ "none" then s!"name={specOf n} ; *" else "* ; *"
+      (s, s!"R name={nm.getD "null"} | C - | I - | S {alt}")
+    | "name", _ =>
+      match parseHex arg with
+      | some bs =>
+        let text := String.ofList (bs.map fun b => Char.ofNat b.toNat)
+        let v := encodingValue (bs.map (·.toNat))
+        let spec : Option Nat := if text = "command" then some 1 else (Variant.ofName text).map Variant.coding
+        (s, s!"R val={v} | C - | I - | S {match spec with | some n => s!"val={n} ; *" | none => "* ; *"}")
+      | none => (s, "bad-op")
     | _, _ => (s, "bad-op")
   | ["pycmd", msg, out] =>
     -- `out` is what /repo/mpt.py:encode_command returned for `msg` ("raise" = ValueError); the C driver
